@@ -25,18 +25,13 @@ func runC04(c *Check, w *World) {
 		return
 	}
 	wantCentre := fmt.Sprintf("calldyn(gval(otp.TimeCounterFunc); param(%s#%d); %s)", fn, tp, periodTerm(fn, pp, "DefaultTOTPParam"))
-	wi := findWindow(c, w, tb, "R04", val, isStepValidator(w))
-	if wi != nil {
-		checkWindow(c, w, tb, iv, "R04", wi, wantCentre, false)
-		if wi.bound != nil {
-			sz := wi.bound
-			if wi.form == "offset" {
-				sz = wi.sizeVal
-			}
-			got := tb.Norm(tb.Of(stripConv(sz))).String()
-			c.Decide(got == resolvedField(fn, pp, "DefaultTOTPParam", "Skew"), "R04.7", fn, "skew-resolution", "the window size is param.Skew, or the default's when param is nil", "the window size is "+clip(got, 200), w.InstrPos(wi.cond))
+	wr := analyseWindow(c, w, tb, iv, "R04", val, isStepValidator(w), wantCentre, false)
+	if wr != nil {
+		if wr.sizeT != nil {
+			got := tb.Norm(wr.sizeT).String()
+			c.Decide(got == resolvedField(fn, pp, "DefaultTOTPParam", "Skew"), "R04.7", fn, "skew-resolution", "the window size is param.Skew, or the default's when param is nil", "the window size is "+clip(got, 200), wr.firstPos)
 		}
-		checkCompareCore(c, w, tb, "R04", val, codeP, deriveExpectation(w, tb, val, secretP, pp, "DefaultTOTPParam", func() string { return tb.Of(wi.ctrArg).String() }, nil))
+		checkCompareCore(c, w, tb, "R04", val, codeP, deriveExpectation(w, tb, val, secretP, pp, "DefaultTOTPParam", func() []string { return wr.ctrArgs }, nil))
 	}
 	// R04.8: generation resolves the period identically
 	if gen := w.Func(OtpPath, "GenerateTOTP"); gen != nil {
